@@ -1,6 +1,8 @@
 import Clover.Probe.Keys
 import Clover.Model.Index
 import Clover.Proofs.RefineWrites
+import Clover.Proofs.RefineBulkAny
+import Clover.Proofs.RefineCatalog
 /-! # C13 — collection catalog exact, collections isolated (key-space part)
 
 The functions below (`Keys.docKey`, `Keys.docPrefix`, `Keys.idxPrefix`, `Keys.metaKey`) are the ones
@@ -37,5 +39,39 @@ theorem createCollection_exact (likeFn : CV.LikeFn) (fnFam : CV.FnFam) (s : CV.S
     let sp := CV.Spec.step likeFn fnFam s (.createCollection c)
     r.1 = sp.1 ∧ CV.Rep sp.2 r.2.1 ∧ CV.WF sp.2 :=
   CV.createCollection_refines likeFn fnFam s σ hw hr c hc
+
+end CV.Props.C13
+
+namespace CV.Props.C13
+open Keys
+
+variable (likeFn : CV.LikeFn) (fnFam : CV.FnFam)
+
+/-- **DropCollection** answers what the specification answers (`ErrCollectionNotExist` for a missing
+    name) and the new store represents the state WITHOUT the collection: its documents, index
+    entries and metadata are all gone, every other collection is untouched. -/
+theorem dropCollection_exact (s : CV.Spec.State) (σ : CV.KVS) (hw : CV.WF s) (hr : CV.Rep s σ) (c : Bytes) :
+    let r := CV.withTx true (CV.Op.body likeFn fnFam (.dropCollection c)) CV.noFault σ
+    let sp := CV.Spec.step likeFn fnFam s (.dropCollection c)
+    r.1 = sp.1 ∧ CV.Rep sp.2 r.2.1 ∧ CV.WF sp.2 := CV.dropCollection_refines likeFn fnFam s σ hw hr c
+
+/-- **ListCollections** returns exactly the names of the live collections and changes nothing. -/
+theorem listCollections_exact (s : CV.Spec.State) (σ : CV.KVS) (hw : CV.WF s) (hr : CV.Rep s σ) :
+    let r := CV.withTx true (CV.Op.body likeFn fnFam .listCollections) CV.noFault σ
+    let sp := CV.Spec.step likeFn fnFam s .listCollections
+    r.1 = sp.1 ∧ r.2.1 = σ := CV.listCollections_refines likeFn fnFam s σ hw hr
+
+/-- Replacing the content of collection `c` in the abstract state leaves every other collection as it
+    was — and since every write operation's resulting store represents such a state, an operation on
+    `c` never changes what any query on `c' ≠ c` returns. -/
+theorem collection_frame (s : CV.Spec.State) (c c' : Bytes) (coll : CV.Spec.Coll) (h : c' ≠ c) :
+    CV.Spec.lookup c' (CV.Spec.insert c coll s) = CV.Spec.lookup c' s := by
+  rw [CV.Spec.lookup_insert']; simp [h]
+
+/-- Bulk update / delete through ANY plan (index-driven or not) leaves every other collection unchanged. -/
+theorem bulk_write_frame (s : CV.Spec.State) (σ : CV.KVS) (hw : CV.WF s) (hr : CV.Rep s σ) (q : CV.Query) (u : CV.Upd) :
+    let r := CV.withTx true (CV.Op.body likeFn fnFam (.update q u)) CV.noFault σ
+    ∃ s', CV.Rep s' r.2.1 ∧ CV.WF s' ∧ ∀ c', c' ≠ q.coll → CV.Spec.lookup c' s' = CV.Spec.lookup c' s :=
+  CV.update_inv likeFn fnFam s σ hw hr q u
 
 end CV.Props.C13
